@@ -135,9 +135,10 @@ class Generator(SchemaVisitor[Any]):
                 if is_ellipsis(elem):
                     continue
                 elements.append(elem.__accept__(self, **kwargs))
-            if (schema.props.len is not Nil) and (len(elements) < schema.props.len):
-                # `...` stands for any elements: pad up to the declared length where it is
-                padding = [None] * (schema.props.len - len(elements))
+            length = schema.props.len if (schema.props.len is not Nil) else schema.props.min_len
+            if (length is not Nil) and (len(elements) < length):
+                # `...` stands for any elements: pad up to the declared (minimum) length where it is
+                padding = [None] * (length - len(elements))
                 if is_ellipsis(schema.props.elements[-1]):
                     elements = elements + padding
                 elif is_ellipsis(schema.props.elements[0]):
